@@ -7,6 +7,7 @@ CONSTANTS
   MaxStalls = 0
   MaxAsk = 0
   AskSelectsQuit = TRUE
+  ResetStopsUnderLock = FALSE
   FixCallEntry = FALSE
   FixResetSnapshot = TRUE
   FixRemoveOwn = TRUE
